@@ -107,6 +107,12 @@ def run_harness(ws, cfg, h, log_dir):
     wall = time.time() - t0
     if log_dir:
         open(os.path.join(log_dir, re.sub(r'\W+', '_', h['name']) + '.log'), 'w').write(out)
+    # `--harness X` matches by substring: if more than one harness ran, keep only the section of the one asked for
+    secs = re.split(r'(?m)^(?=Checking harness )', out)
+    if len([x for x in secs if x.startswith('Checking harness ')]) > 1:
+        want = [x for x in secs if re.match(r'Checking harness (\S*::)?%s\.\.\.' % re.escape(h['name']), x)]
+        if len(want) == 1:
+            out = secs[0] + want[0]
     checks, summary, verdict, vtime = parse_kani(out)
     ob = dict(name='kani:%s/%s' % (cfg['package'], h['name']), unit=', '.join(h.get('functions', [])),
               file=h.get('file') or (cfg.get('append') or [{}])[0].get('to'), engine='kani/cbmc',
@@ -188,16 +194,20 @@ def playback(ws, cfg, h, ob):
             ob['detail'] += '\n(no concrete counterexample produced by Kani)'
             return
         src = open(os.path.join(ws, h.get('file') or cfg['append'][0]['to'])).read()
-        tests = []
-        for n in names[:2]:
-            m = re.search(r'#\[test\]\s*fn ' + n + r'\(\).*?\n\s*\}\n', src, re.S)
-            if m:
-                tests.append(m.group(0))
-        p2 = subprocess.run(['cargo', 'kani', 'playback', '-Z', 'concrete-playback', '-p', cfg['package'], '--', names[0]],
-                            cwd=ws, env=env, capture_output=True, text=True, timeout=900)
-        out = p2.stdout + p2.stderr
-        m = re.search(r"(thread '[^']*' \(?\d*\)? ?panicked at [^\n]*\n[^\n]*)", out)
-        failed = 'test result: FAILED' in out
+        # Kani also emits playback tests for SATISFIED cover! statements (they pass natively): try the generated tests one
+        # by one and keep the first that fails natively
+        tests, out, failed, m = [], '', False, None
+        for n in names[:12]:
+            p2 = subprocess.run(['cargo', 'kani', 'playback', '-Z', 'concrete-playback', '-p', cfg['package'], '--', n],
+                                cwd=ws, env=env, capture_output=True, text=True, timeout=900)
+            out = p2.stdout + p2.stderr
+            if 'test result: FAILED' in out:
+                failed = True
+                mt = re.search(r'#\[test\]\s*fn ' + n + r'\(\).*?\n\s*\}\n', src, re.S)
+                if mt:
+                    tests.append(mt.group(0))
+                m = re.search(r"(thread '[^']*' \(?\d*\)? ?panicked at [^\n]*\n[^\n]*)", out)
+                break
         ob['witness'] = dict(kind='kani concrete playback (counterexample bytes per kani::any(), decoded values in comments), replayed natively on the real code with `cargo kani playback`',
                              test='\n'.join(tests)[:6000], native_replay_failed_as_predicted=failed,
                              native_output=(m.group(1) if m else out[-800:]))
